@@ -9,6 +9,7 @@ import (
 	"os"
 	"sort"
 	"strings"
+	"sync"
 	"time"
 
 	"github.com/ethereum/go-ethereum/common"
@@ -300,17 +301,17 @@ func o4Wire(c O4Case) (string, string) {
 				return true
 			}
 		}
-		return false
-	}, 1500*time.Millisecond)
-	if got == "hang" && lf.dead() {
-		got = "down"
-	}
-	if got == "hang" {
-		// nothing yet: give a dying client time to be seen
-		if waitUntil(lf.dead, 1500*time.Millisecond) {
-			got = "down"
+		select {
+		case <-lf.died:
+			lf.isDead = true
+		default:
 		}
-	}
+		if lf.isDead {
+			got = "down"
+			return true
+		}
+		return false
+	}, 6*time.Second)
 	p := ""
 	lf.rec.mu.Lock()
 	p = lf.rec.panic
@@ -427,37 +428,61 @@ func o4Cases() ([]O4Case, map[string]string, int, error) {
 }
 
 func execO4(cases []O4Case) ([]O4Res, error) {
-	var out []O4Res
-	var wk *worker
-	defer func() {
-		if wk != nil {
-			wk.stop()
-		}
-	}()
-	for _, cs := range cases {
-		if wk == nil {
-			var err error
-			if wk, err = startWorker(); err != nil {
-				return nil, err
+	out := make([]O4Res, len(cases))
+	jobs := make(chan int, len(cases))
+	for i := range cases {
+		jobs <- i
+	}
+	close(jobs)
+	const par = 3
+	errs := make([]error, par)
+	var wg sync.WaitGroup
+	for k := 0; k < par; k++ {
+		wg.Add(1)
+		go func(k int) {
+			defer wg.Done()
+			var wk *worker
+			defer func() {
+				if wk != nil {
+					wk.stop()
+				}
+			}()
+			for i := range jobs {
+				if wk == nil {
+					var err error
+					if wk, err = startWorker(); err != nil {
+						errs[k] = err
+						return
+					}
+				}
+				cs := cases[i]
+				rep, crashed, tail, err := wk.do(workerJob{O4: &cs}, time.Minute)
+				if err != nil {
+					errs[k] = err
+					return
+				}
+				if crashed {
+					out[i] = O4Res{C: cs, Got: "panic", Panic: firstPanicLine(tail)}
+					wk = nil
+					continue
+				}
+				if rep.O4 == nil {
+					errs[k] = fmt.Errorf("worker sent no O4 result")
+					return
+				}
+				if strings.HasPrefix(rep.O4.Got, "infra") {
+					errs[k] = fmt.Errorf("O4 case %s: %s", cs.String(), rep.O4.Got)
+					return
+				}
+				out[i] = *rep.O4
 			}
+		}(k)
+	}
+	wg.Wait()
+	for _, e := range errs {
+		if e != nil {
+			return nil, e
 		}
-		cs := cs
-		rep, crashed, tail, err := wk.do(workerJob{O4: &cs}, time.Minute)
-		if err != nil {
-			return nil, err
-		}
-		if crashed {
-			out = append(out, O4Res{C: cs, Got: "panic", Panic: firstPanicLine(tail)})
-			wk = nil
-			continue
-		}
-		if rep.O4 == nil {
-			return nil, fmt.Errorf("worker sent no O4 result")
-		}
-		if strings.HasPrefix(rep.O4.Got, "infra") {
-			return nil, fmt.Errorf("O4 case %s: %s", cs.String(), rep.O4.Got)
-		}
-		out = append(out, *rep.O4)
 	}
 	return out, nil
 }
